@@ -4,7 +4,7 @@ cd /verif
 ids="$@"; [ -z "$ids" ] && ids=$(ls seeded)
 for id in $ids; do
   prop=$(python3 -c "import json;print(json.load(open('seeded/$id/meta.json'))['property'])")
-  out=$(timeout 1500 tools/dev/try_mutant.sh seeded/$id/patch.diff $prop 2>/dev/null | grep -E "VIOLATION|PASS|FAIL|patch does not apply|dirty")
+  out=$(timeout 1500 tools/dev/try_mutant.sh /verif/seeded/$id/patch.diff $prop 2>/dev/null | grep -E "VIOLATION|PASS|FAIL|patch does not apply|dirty")
   if echo "$out" | grep -q "VIOLATION.*replay" ; then
     if echo "$out" | grep "VIOLATION" | grep -vq "no-failing-input-found"; then echo "$id ($prop): DETECTED with replay"; else echo "$id ($prop): detected (no-failing-input-found only)"; fi
   else echo "$id ($prop): MISSED  [$out]"; fi
